@@ -287,7 +287,9 @@ class timemodel(_coreiterative):
             # specific step(s) to save result and go back to Qn
             while (isave < nsave) and (self.Qn.time+mindtloc >= tsave[isave]):
                 # compute smaller step with same integrator
-                self.step(Qnn, tsave[isave]-self.Qn.time)
+                dtsave = tsave[isave]-self.Qn.time
+                if dtsave > 0.: # a save time equal to current time returns current state
+                    self.step(Qnn, dtsave)
                 Qnn.it = self._itstart + self._nit
                 results.append(Qnn)
                 if verbose:
